@@ -99,6 +99,7 @@ func runC09(c *Ctx) {
 	rulePacketRead(c, p, "C09.packet-read")
 	rulePacketDeadline(c, p, "C09.deadline")
 	ruleVersionArgs(c, p, "C09.version")
+	ruleAllColumns(c, p, "C09.all-columns")
 	c.R.Assumptions = append(c.R.Assumptions,
 		"(*proto.Writer).Flush writes synchronously (net.Buffers.WriteTo) and drops every reference afterwards (C09.writer.* = the C14 induction steps)",
 		"decided: order of encode / flush / callback / terminator on all paths; not decided: byte equality of each block with the snapshot taken inside the callback")
